@@ -41,8 +41,9 @@ InOf(e) ==
             IF e.dst \notin {"U", "BC_OPT", "BC_MAN", "BC_NR"} \/ ~e.fir \/ ~e.fin \/ e.con THEN [k |-> "?"]
             ELSE LET rep == e.bid = lastReq.bid /\ e.seq = lastReq.seq
                      adr == [src |-> e.src, dst |-> e.dst]
-                     isCtl == e.fc \in {3, 4, 5, 6} /\ Len(e.hdrs) = 1 /\ e.hdrs[1].g = 12 /\ e.hdrs[1].q = 23
+                     isCtl == e.fc \in {3, 4, 5, 6} /\ Len(e.hdrs) = 1 /\ e.hdrs[1].g = 12 /\ e.hdrs[1].q \in {23, 40}
                                 /\ Len(e.robjs) = 1 /\ e.robjs[1].ix \in {1, 2}
+                                /\ (e.hdrs[1].q = 23 \/ e.robjs[1].ix = 1)
                      req(f, cl, ob, bad) == [k |-> "req", f |-> f, seq |-> e.seq, cl |-> cl, rep |-> rep,
                                              ob |-> ob, bad |-> bad] @@ adr
                  IN CASE e.fc = 0 /\ e.dst = "U" -> [k |-> "conf", uns |-> e.uns, seq |-> e.seq, src |-> e.src]
@@ -61,7 +62,8 @@ InOf(e) ==
                            req(IF e.fc = 20 THEN "enable" ELSE "disable", ClsOf(e.hdrs), "", "")
                       [] isCtl ->
                            req(CASE e.fc = 3 -> "select" [] e.fc = 4 -> "operate" [] e.fc = 5 -> "dop"
-                                 [] OTHER -> "dopnr", {}, IF e.robjs[1].ix = 1 THEN "a" ELSE "b", "")
+                                 [] OTHER -> "dopnr", {},
+                               IF e.hdrs[1].q = 40 THEN "a2" ELSE IF e.robjs[1].ix = 1 THEN "a" ELSE "b", "")
                       [] e.fc = 2 /\ Len(e.robjs) = 1 /\ e.robjs[1].g = 80 /\ e.robjs[1].ix = 7
                            /\ e.robjs[1].val = "0" -> req("write_rst", {}, "", "")
                       [] OTHER -> [k |-> "?"]
